@@ -7,7 +7,7 @@
    call raising.  It returns the new store, the event log (fit calls, predict calls, writes) and
    the outcome. *)
 From Coq Require Import ZArith List Bool.
-Require Import SkV.Lib.Base SkV.Lib.ZRange SkV.C19.Model SkV.C19.Store SkV.C19.Proofs.
+Require Import SkV.Lib.Base SkV.Lib.ZRange SkV.C19.Model SkV.C19.Store SkV.C19.Proofs SkV.C19.Grid.
 Import ListNotations.
 Open Scope Z_scope.
 
@@ -121,6 +121,84 @@ Theorem C19_overwrite_recomputes_all : forall fitf predf hdd fl l st st' ev out,
      fget (tkey t it) (sfiles st') = Some (expect fitf predf t it)).
 Proof. exact run_overwrite. Qed.
 Print Assumptions C19_overwrite_recomputes_all.
+
+(* the registry: after an uninterrupted run - whatever was skipped because it existed already, and
+   whether or not the results object is the one that computed it - every strategy and dataset of the
+   run is registered in the object and, on disk, the master file holds exactly the object's names;
+   every registered name comes from the old registry, the old master file or the run's tasks *)
+Theorem C19_registry_complete : forall fitf predf hdd fl l st st' ev out,
+  legal hdd fl -> run fitf predf hdd fl None l st = (st', ev, out) ->
+  out = Done /\
+  (forall t, In t l -> In (ts t) (snames st') /\ In (td t) (dnames st')) /\
+  (hdd = true -> exists sn dn, master st' = Some (sn, dn) /\
+                 (forall x, In x sn <-> In x (snames st')) /\ (forall x, In x dn <-> In x (dnames st'))) /\
+  (forall x, In x (snames st') ->
+     In x (snames st) \/ (exists ms md, master st = Some (ms, md) /\ In x ms) \/ exists t, In t l /\ x = ts t) /\
+  (forall x, In x (dnames st') ->
+     In x (dnames st) \/ (exists ms md, master st = Some (ms, md) /\ In x md) \/ exists t, In t l /\ x = td t).
+Proof. exact run_registry. Qed.
+Print Assumptions C19_registry_complete.
+
+(* read-back after a run over a grid with a NEW results object (resumed / repeated benchmark):
+   load_predictions succeeds for every fold and requested part, returns one record for every
+   strategy x dataset of the grid, each exactly what fit-then-predict on that fold gives *)
+Theorem C19_load_after_run : forall fitf predf hdd fl strats data st st' ev out f it,
+  legal hdd fl -> NoDup (map fst strats) -> NoDup (map d_name data) ->
+  honest fitf predf (tasks_of strats data) (sfiles st) ->
+  snames st = [] -> dnames st = [] ->
+  (forall ms md, master st = Some (ms, md) -> incl ms (map fst strats) /\ incl md (map d_name data)) ->
+  run fitf predf hdd fl None (tasks_of strats data) st = (st', ev, out) ->
+  requested fl it = true ->
+  (forall d, In d data -> 0 <= f < Z.of_nat (length (d_folds d))) ->
+  exists recs,
+    load st' f it = Some recs /\
+    (forall s d c, In (s, d, c) recs ->
+       exists t, In t (tasks_of strats data) /\ tkey t it = (s, d, f, it) /\ c = expect fitf predf t it) /\
+    (forall s d, In s strats -> In d data -> exists c, In (fst s, d_name d, c) recs).
+Proof. exact load_after_run. Qed.
+Print Assumptions C19_load_after_run.
+
+(* the task list of a grid (datasets x strategies x folds) has pairwise different keys when
+   strategy names are unique (validated by the Orchestrator) and dataset names are unique: the
+   `distinct` hypothesis above is met *)
+Theorem C19_grid_tasks_distinct : forall strats data,
+  NoDup (map fst strats) -> NoDup (map d_name data) -> distinct (tasks_of strats data).
+Proof. exact tasks_of_distinct. Qed.
+Print Assumptions C19_grid_tasks_distinct.
+
+(* fold generation.  k-fold: k folds; test folds are contiguous blocks of n/k or n/k+1 positions,
+   every position is in exactly one test fold, the training fold is the complement *)
+Theorem C19_kfold_partition : forall n k, 0 < k <= n ->
+  length (kfold n k) = Z.to_nat k /\
+  (forall i, 0 <= i < k ->
+     nth (Z.to_nat i) (kfold n k) ([], []) = (complement n (kfold_test n k i), kfold_test n k i) /\
+     n / k <= Z.of_nat (length (kfold_test n k i)) <= n / k + 1 /\ 0 < n / k) /\
+  (forall x, 0 <= x < n ->
+     exists i, 0 <= i < k /\ In x (kfold_test n k i) /\
+               forall j, 0 <= j < k -> In x (kfold_test n k j) -> j = i) /\
+  (forall i x, 0 <= i < k -> In x (kfold_test n k i) -> 0 <= x < n).
+Proof. exact kfold_partition. Qed.
+Print Assumptions C19_kfold_partition.
+
+Theorem C19_complement_is_the_rest : forall n te x, In x (complement n te) <-> 0 <= x < n /\ ~ In x te.
+Proof. exact complement_in. Qed.
+Print Assumptions C19_complement_is_the_rest.
+
+(* pre-split files: the first fold is exactly the file split *)
+Theorem C19_presplit_file_fold : forall labels inner,
+  exists tr te rest, presplit labels inner = (tr, te) :: rest /\
+    (forall x, In x tr <-> exists j : nat, x = Z.of_nat j /\ nth_error labels j = Some true) /\
+    (forall x, In x te <-> exists j : nat, x = Z.of_nat j /\ nth_error labels j = Some false) /\
+    (forall x, 0 <= x < Z.of_nat (length labels) -> (In x tr <-> ~ In x te)).
+Proof. exact presplit_file_fold. Qed.
+Print Assumptions C19_presplit_file_fold.
+
+(* single unshuffled split: an ordered prefix / suffix partition with the requested test size *)
+Theorem C19_single_split_partition : forall n t, 0 < t < n ->
+  exists tr te, single_noshuffle n t = [(tr, te)] /\ tr ++ te = zrange 0 n 1 /\
+                Z.of_nat (length te) = t /\ Z.of_nat (length tr) = n - t.
+Proof. exact single_noshuffle_partition. Qed.
+Print Assumptions C19_single_split_partition.
 
 (* overwrite_fitted_strategies without save_fitted_strategies is refused before anything happens *)
 Theorem C19_illegal_flags_rejected : forall fitf predf hdd fl fail l st,
